@@ -43,6 +43,9 @@ type caseT struct {
 	ReleaseDelay int    // 0 right away, 1 after 1 ms, 2 after timeout/3
 	SubjectOn    int
 	SlowDrain    bool // the subject's subscriber keeps its channel open until the in-flight message is settled
+	Outcome      int  // subject handler: 0 success, 1 error, 2 panic
+	SlowLogUs    int  // the logger's Error() takes this long (loggers do I/O)
+	NegTimeout   bool // CloseTimeout is negative (a deadline that already passed)
 	Noise        []uint8
 }
 
@@ -89,9 +92,33 @@ func genCase(t *rapid.T) caseT {
 	if !c.GoChannel && c.Point == "in-handler" {
 		c.SlowDrain = rapid.Bool().Draw(t, "subscriberDrainsBeforeClosing")
 	}
+	c.Outcome = rapid.SampledFrom([]int{0, 0, 1, 2, 2}).Draw(t, "subjectOutcome")
+	if c.Point == "publishing" || c.Point == "before-settle" {
+		c.Outcome = 0 // these points are only reached by a successful handler
+	}
+	c.SlowLogUs = rapid.SampledFrom([]int{0, 0, 300, 2000}).Draw(t, "loggerErrorDurationUs")
+	if c.Point == "in-handler" && !c.SlowDrain && rapid.IntRange(0, 5).Draw(t, "negativeCloseTimeout") == 0 {
+		c.NegTimeout = true
+		c.HandlerDur = 3
+	}
 	c.Noise = rapid.SliceOfN(rapid.Uint8Range(0, 5), 0, 8).Draw(t, "noise")
 	return c
 }
+
+var errSubject = fmt.Errorf("subject handler fails")
+
+// slowLogger is a logger whose Error() takes a while (real loggers write somewhere).
+type slowLogger struct{ d time.Duration }
+
+func (l slowLogger) Error(msg string, err error, fields watermill.LogFields) {
+	if l.d > 0 {
+		time.Sleep(l.d)
+	}
+}
+func (l slowLogger) Info(string, watermill.LogFields)                 {}
+func (l slowLogger) Debug(string, watermill.LogFields)                {}
+func (l slowLogger) Trace(string, watermill.LogFields)                {}
+func (l slowLogger) With(watermill.LogFields) watermill.LoggerAdapter { return l }
 
 type msgState struct {
 	tag     string
@@ -157,7 +184,11 @@ func runCase(c caseT) (viol []string, held bool) {
 	defer ctl.Uninstall()
 	ctl.Noise(c.Noise)
 	w := &world{}
-	router, err := message.NewRouter(message.RouterConfig{CloseTimeout: c.CloseTimeout}, watermill.NopLogger{})
+	routerTimeout := c.CloseTimeout
+	if c.NegTimeout {
+		routerTimeout = -time.Millisecond
+	}
+	router, err := message.NewRouter(message.RouterConfig{CloseTimeout: routerTimeout}, slowLogger{time.Duration(c.SlowLogUs) * time.Microsecond})
 	if err != nil {
 		return []string{"harness: " + err.Error()}, false
 	}
@@ -194,6 +225,14 @@ func runCase(c caseT) (viol []string, held bool) {
 				}
 				if dur > 0 {
 					time.Sleep(dur)
+				}
+			}
+			if ms.subject {
+				switch c.Outcome {
+				case 1:
+					return nil, errSubject
+				case 2:
+					panic("subject handler panics")
 				}
 			}
 			if hasPub {
